@@ -3,7 +3,7 @@ PROP = dict(
     lean_modules=["TongoProofs.C14", "TongoProofs.C14Tlb"],
     gen=["WalletConsts", "TlbTypes"],
     # the model IS the specification: bodies, envelope, digest, decoder outputs and verifier verdicts are bit-exact
-    spec_ops=("m.body", "m.bodyx", "m.extn", "m.raw", "m.decode", "m.verify", "prim.sha256"),
+    spec_ops=("m.body", "m.bodyx", "m.extn", "m.raw", "m.decode", "m.verify", "m.int", "m.intdec", "prim.sha256"),
     rule="every sending version (V3R1, V3R2, V4R1, V4R2, V5Beta, V5R1, HighLoadV2R2) x random Ed25519 keys x workchain / "
          "sub-wallet / network options x seqno and valid-until in {0,1,2^31,2^32-1,random} x 0..4 messages mostly, 5/17/100/"
          "max-1/max for the large-capacity versions, max+1 and max+50 for the limit; messages are either marshalled "
@@ -16,6 +16,17 @@ PROP = dict(
          "decoded fields equal the requested ones, over-limit sends refused; send modes 0,1,2,3,64,128,255 and random on "
          "every construction path (Send via Sendable.ToInternal, CreateMessageBody, RawSend with RawMessage): extracted modes = "
          "REQUESTED modes (the mode ToInternal returns is under test, not trusted). "
+         "The GENERATOR never runs the wallet package: requested internal messages, signed cells, bodies, envelopes and the "
+         "wallet's state init / address are built bit by bit from the TL-B layouts (harness/cmd/vh/c14ref.go) and signed with "
+         "crypto/ed25519; the wallet code only runs in the executors. Batch-size boundary for every version: max-1 and max "
+         "accepted with exactly that many messages carried in order, max+1 and max+50 refused with nothing sent (oracle and "
+         "model). Outgoing messages WITH a state init on every construction path (wallet.Message{Code,Data}, ContractDeploy, "
+         "RawMessage whose cell carries an init; alone and mixed with plain transfers; empty data cell, code with a ref): "
+         "ToInternal+Marshal against the model (m.int, all three Sendable kinds, comments across snake boundaries), the "
+         "library decoder on the reference message against the model's reader (m.intdec), and in the oracle the extracted "
+         "init field by field (by reference, code present + hash, data present + hash, no library / split_depth / special, "
+         "destination, bounce, amount; for a deploy destination = hash of the CARRIED state init); RawSendV2's envelope: "
+         "destination = hash of the hand-built wallet state init, init attached exactly when requested. "
          "v5r1 extended actions: 0..255 send actions together with nil / 1..4 extended actions (add / remove extension with "
          "addr_std in workchains 0,-1,1,127,-128 or addr_none, set-signature-allowed), both opcodes, through "
          "CreateSignedMsgBodyCell; the ExtensionAction form marshalled from wallet.MessageV5 (with / without send actions); "
@@ -45,15 +56,19 @@ PROP = dict(
         "actions carry addr_none / addr_std without anycast (addr_extern, addr_var, anycast answer 'unmodelled')",
         "MessageV5.RawMessages() has no case for ExtensionAction: ExtractRawMessages returns no messages for that form even "
         "when it carries send actions; modelled as the code is (decode_extension_action), not judged",
-        "internal messages are arbitrary cells for the model; their own TL-B marshalling (wallet.Message.ToInternal) is "
-        "exercised by the harness but belongs to C03/C04",
+        "outgoing internal messages are modelled for wallet.Message, SimpleTransfer (without extra currencies) and "
+        "ContractDeploy with cell arguments (TongoModel/WalletInt.lean); inside signed bodies they are arbitrary cells",
     ],
     partial=[],
     level_text="Theorems for all inputs about the Lean model: for all seven sending versions the builders return written-out layouts "
                "that fit a cell (highload: the dictionary with keys 0..n-1 always builds, n <= 254); the digest signed and the digest verified are the representation hash of exactly the cell "
                "holding ids, expiry, seqno, [op] and the messages; the wallet's own key verifies (signature correctness "
                "assumed); decoding the built external message returns the same ids, seqno, expiry and messages with modes in "
-               "order (highload: through the C05 dictionary theorems on the shared Hashmap model); representations of ordinary cells are injective in bits and ref hashes, so any change of the signed "
+               "order (highload: through the C05 dictionary theorems on the shared Hashmap model); a requested message with code and data is "
+               "marshalled without overflow and read back with exactly that code and data, both present, no library "
+               "(carried_init_is_requested), no init without both (no_init_without_code_and_data), a ContractDeploy is addressed to the hash of the "
+               "state init it carries (deploy_address_is_carried_init_hash); the batch guard accepts every size up to and including the version's maximum and "
+               "refuses max+1 with nothing sent (limit_boundary, too_many_refused); representations of ordinary cells are injective in bits and ref hashes, so any change of the signed "
                "body changes the digest unless SHA-256 collides; over-limit sends are refused before anything is sent. Two "
                "defects found by the check (empty highload payload undecodable, v5 beta unverifiable) are repaired in the "
                "code; their negations on the old model are theorems. The model is tied to the Go code by bit-exact "
